@@ -5,6 +5,13 @@ PollPoller_remove_resets_index : bool
     true iff PollPoller::removeChannel unconditionally calls channel->set_index(<negative constant>)
     on its parameter (a direct statement of the function body).  Selects which poll back-end model
     (C09_Model.pp_step ri) describes the tree and therefore which theorem applies (finding F-1).
+EPollPoller_add_skips_empty_interest : bool
+    true iff every update(EPOLL_CTL_ADD, ..) in EPollPoller::updateChannel sits in the else-branch of an
+    `if (channel->isNoneEvent())` whose then-branch only records the channel (set_index(kDeleted), no
+    epoll_ctl): a channel with an empty interest is never put into the epoll set (finding F-14).
+PollPoller_new_entry_negates_empty : bool
+    true iff the new-entry branch of PollPoller::updateChannel stores pfd.fd = -channel->fd()-1 under
+    `if (channel->isNoneEvent())` before the push_back and keys channels_ by channel->fd() (F-14).
 EPollPoller_grow_factor : Z
     k if EPollPoller::poll contains  if (<numEvents> == events_.size()) events_.resize(events_.size()*k),
     1 if the result array is never grown.  C09_epoll_bounded needs 2 <= k (closed by computation).
@@ -123,6 +130,96 @@ def grow_factor():
                             return int(lit["value"]), note
     note.append("no `if (numEvents == events_.size()) events_.resize(events_.size()*k)` found: array never grown")
     return 1, note
+
+
+def is_call_on_param(node, method, params):
+    node = cxxast.strip(node)
+    if node.get("kind") != "CXXMemberCallExpr":
+        return False
+    name, mem = member_name(node)
+    if name != method:
+        return False
+    obj = object_of(mem)
+    return obj.get("kind") == "DeclRefExpr" and obj.get("referencedDecl", {}).get("name") in params
+
+
+def add_skips_empty():
+    fn = cxxast.function_decl("muduo/net/poller/EPollPoller.cc", "EPollPoller::updateChannel")
+    params = [c.get("name") for c in fn.get("inner", []) if isinstance(c, dict) and c.get("kind") == "ParmVarDecl"]
+    note = []
+
+    def is_add(n):
+        if n.get("kind") != "CXXMemberCallExpr" or member_name(n)[0] != "update":
+            return False
+        a = args_of(n)
+        try:
+            return bool(a) and cxxast.const_eval(a[0]) == 1        # EPOLL_CTL_ADD
+        except Exception:  # noqa
+            return False
+    adds = list(paths_to(cxxast.body(fn), is_add))
+    if not adds:
+        return False, ["no update(EPOLL_CTL_ADD, ..) in updateChannel"]
+    for node, path in adds:
+        guards = [(c, pol) for c, pol in path if is_call_on_param(c, "isNoneEvent", params)]
+        if not any(pol is False for _, pol in guards):
+            return False, ["update(EPOLL_CTL_ADD, channel) is reached whatever channel->isNoneEvent() says"]
+    # the then-branch of that test records the channel as kDeleted and does not touch the epoll set
+    ok = False
+    for n in cxxast.walk(cxxast.body(fn)):
+        if n.get("kind") == "IfStmt":
+            inner = [c for c in n.get("inner", []) if isinstance(c, dict)]
+            if is_call_on_param(inner[0], "isNoneEvent", params) and len(inner) == 3 and any(is_add(m) for m in cxxast.walk(inner[2])):
+                then = inner[1]
+                has_update = any(m.get("kind") == "CXXMemberCallExpr" and member_name(m)[0] == "update" for m in cxxast.walk(then))
+                sets = [m for m in cxxast.walk(then) if m.get("kind") == "CXXMemberCallExpr" and member_name(m)[0] == "set_index"]
+                names = [d.get("referencedDecl", {}).get("name") for m in sets for d in cxxast.walk(m) if d.get("kind") == "DeclRefExpr"]
+                if not has_update and "kDeleted" in names:
+                    ok = True
+    if not ok:
+        return False, ["the isNoneEvent() branch does not just set_index(kDeleted)"]
+    return True, ["if (channel->isNoneEvent()) set_index(kDeleted); else { set_index(kAdded); update(EPOLL_CTL_ADD, channel); }"]
+
+
+def new_entry_negates():
+    fn = cxxast.function_decl("muduo/net/poller/PollPoller.cc", "PollPoller::updateChannel")
+    params = [c.get("name") for c in fn.get("inner", []) if isinstance(c, dict) and c.get("kind") == "ParmVarDecl"]
+    for st in [c for c in cxxast.body(fn).get("inner", []) if isinstance(c, dict)]:
+        if st.get("kind") != "IfStmt":
+            continue
+        inner = [c for c in st.get("inner", []) if isinstance(c, dict)]
+        cond = cxxast.strip(inner[0])
+        if not (cond.get("kind") == "BinaryOperator" and cond.get("opcode") == "<" and
+                any(is_call_on_param(m, "index", params) for m in cxxast.walk(cond))):
+            continue
+        negated_before_push, pushed, key_ok = False, False, False
+        for x in [c for c in inner[1].get("inner", []) if isinstance(c, dict)]:
+            if x.get("kind") == "IfStmt" and not pushed:
+                xi = [c for c in x.get("inner", []) if isinstance(c, dict)]
+                if is_call_on_param(xi[0], "isNoneEvent", params):
+                    for m in cxxast.walk(xi[1]):
+                        if m.get("kind") == "BinaryOperator" and m.get("opcode") == "=":
+                            lhs, rhs = cxxast.strip(m["inner"][0]), cxxast.strip(m["inner"][1])
+                            if lhs.get("kind") == "MemberExpr" and lhs.get("name") == "fd" and object_of(lhs).get("referencedDecl", {}).get("name") == "pfd":
+                                # -channel->fd() - 1
+                                if rhs.get("kind") == "BinaryOperator" and rhs.get("opcode") == "-":
+                                    a, b = cxxast.strip(rhs["inner"][0]), cxxast.strip(rhs["inner"][1])
+                                    if a.get("kind") == "UnaryOperator" and a.get("opcode") == "-" and is_call_on_param(a["inner"][0], "fd", params) \
+                                       and b.get("kind") == "IntegerLiteral" and int(b["value"]) == 1:
+                                        negated_before_push = True
+            if any(m.get("kind") == "CXXMemberCallExpr" and member_name(m)[0] == "push_back" for m in cxxast.walk(x)):
+                pushed = True
+            for m in cxxast.walk(x):
+                if m.get("kind") == "CXXOperatorCallExpr":
+                    mi = [c for c in m.get("inner", []) if isinstance(c, dict)]
+                    if mi and cxxast.strip(mi[0]).get("referencedDecl", {}).get("name") == "operator[]" and len(mi) == 3 \
+                       and cxxast.strip(mi[1]).get("name") == "channels_":
+                        key_ok = is_call_on_param(mi[2], "fd", params)
+        if negated_before_push and pushed and key_ok:
+            return True, ["new entry: if (channel->isNoneEvent()) pfd.fd = -channel->fd()-1; before push_back; channels_[channel->fd()] = channel"]
+        if negated_before_push and pushed and not key_ok:
+            print("FALLBACK PollPoller_new_entry_negates_empty: the entry is negated but channels_ is not keyed by channel->fd(): treated as 'does not negate'")
+        return False, ["new entry pushed with pfd.fd = channel->fd() whatever the interest (negated=%s key=%s)" % (negated_before_push, key_ok)]
+    return False, ["no `if (channel->index() < 0)` branch found"]
 
 
 # --------------------------------------------------------------------------- small translators
@@ -516,6 +613,16 @@ def main():
     except Exception as e:  # noqa
         print("MISSING PollPoller_remove_resets_index (%s)" % e)
         out.append("(* MISSING PollPoller_remove_resets_index: %s *)" % str(e).replace("*)", ""))
+    for nm, f, src in (("EPollPoller_add_skips_empty_interest", add_skips_empty, "muduo/net/poller/EPollPoller.cc updateChannel"),
+                       ("PollPoller_new_entry_negates_empty", new_entry_negates, "muduo/net/poller/PollPoller.cc updateChannel")):
+        try:
+            v, note = f()
+            for x in note:
+                out.append("(* %s: %s *)" % (src, cmt(x)))
+            out.append("Definition %s : bool := %s." % (nm, "true" if v else "false"))
+        except Exception as e:  # noqa
+            print("MISSING %s (%s)" % (nm, e))
+            out.append("(* MISSING %s: %s *)" % (nm, cmt(str(e))))
     try:
         k, note = grow_factor()
         for x in note:
